@@ -438,16 +438,40 @@ class FiniteLang(_NoArgs, VerificationStrategy):
         return d
 
 
-class MixFactory(_NoArgs, StrategyFactory):
+class MixFactory(StrategyFactory):
+    """Yields a strategy, a ready rule and a rule for a different parent (in either order)."""
+
+    def __init__(self, foreign_first=False):
+        self.foreign_first = foreign_first
+
     def __call__(self, c):
-        yield SplitFirst()
-        if not c.atom and c.prefix and not c.is_empty():
-            yield PeelPrefix()(c)  # a ready rule
-            root = Lang(c.t, c.q, "", False, child_stats(c.stats, c.t, c.q, "", False)[0])
+        applies = not c.atom and c.prefix and not c.is_empty()
+        root = Lang(c.t, c.q, "", False, child_stats(c.stats, c.t, c.q, "", False)[0]) if applies else None
+        if applies and self.foreign_first:
             yield SplitFirst()(root)  # a rule whose parent is a different class
+        yield SplitFirst()
+        if applies:
+            yield PeelPrefix()(c)  # a ready rule
+            if not self.foreign_first:
+                yield SplitFirst()(root)
+
+    def to_jsonable(self):
+        d = super().to_jsonable()
+        d["foreign_first"] = self.foreign_first
+        return d
+
+    @classmethod
+    def from_dict(cls, d):
+        return cls(d.get("foreign_first", False))
+
+    def __repr__(self):
+        return "MixFactory(%r)" % self.foreign_first
+
+    def __str__(self):
+        return "MixFactory"
 
 
-OPTION_NAMES = ("iterative", "inferral", "symmetry", "factory", "finite")
+OPTION_NAMES = ("iterative", "inferral", "symmetry", "factory", "factory2", "finite")
 
 
 def mkpack(opts=()):
@@ -459,8 +483,10 @@ def mkpack(opts=()):
     ver = [StatAtom() if stats else AtomStrategy()] + ([FiniteLang()] if "finite" in opts else [])
     inf = [MergeState()] if "inferral" in opts else []
     sym = [SwapLetters()] if ("symmetry" in opts and not stats) else []
-    exp = [[MixFactory()]] if "factory" in opts else [[SplitFirst()]]
-    return StrategyPack(initial_strats=[PeelPrefix()], inferral_strats=inf, expansion_strats=exp, ver_strats=ver,
+    exp = [[MixFactory("factory2" in opts)]] if ("factory" in opts or "factory2" in opts) else [[SplitFirst()]]
+    # with a factory in the pack the prefix is peeled by the factory's ready rule, not by an initial strategy
+    init = [] if ("factory" in opts or "factory2" in opts) else [PeelPrefix()]
+    return StrategyPack(initial_strats=init, inferral_strats=inf, expansion_strats=exp, ver_strats=ver,
                         symmetries=sym, name="reg", iterative="iterative" in opts)
 
 
